@@ -1334,6 +1334,31 @@ def classify(unit: Unit, text: str, res: dict, expect_fail_prefix=("sentinel_",)
     return ur
 
 
+def frame_checks(unit) -> None:
+    """`[[frame_check]]` (unit.toml): an invariant proved of ONE mutator (e.g. HttpRouter::insert keeps wf_node) is
+    an invariant of the data structure only if nothing else can write to it.  The check is syntactic: the methods of
+    `impl` in `file` that take `&mut self` must be exactly `mut_methods`, and the field `private_field` of `struct`
+    must not be `pub`.  A change there makes the meta-argument unsupported: UNDECIDED, not a violation."""
+    for fc in unit.cfg.get("frame_check", []):
+        src = R.Source(os.path.join(REPO, fc["file"]))
+        it = src.find(fc["impl"])
+        muts = []
+        for c in src.children(it):
+            if c.kind != "fn" or c.is_test:
+                continue
+            sig = src.text[c.start:src.ct[c.body_open].start] if c.body_open is not None else src.text_of(c)
+            if re.search(r"&\s*(?:'\w+\s+)?mut\s+self", sig):
+                muts.append(c.name)
+        if sorted(muts) != sorted(fc["mut_methods"]):
+            raise ExtractError(f"frame check: `&mut self` methods of `{fc['impl']}` are {sorted(muts)}, expected {sorted(fc['mut_methods'])}: "
+                               "the representation invariant is proved for the expected mutators only")
+        if "struct" in fc:
+            st = src.find(fc["struct"])
+            body = src.text_of(st)
+            if re.search(r"\bpub(\s*\([^)]*\))?\s+" + re.escape(fc["private_field"]) + r"\s*:", body):
+                raise ExtractError(f"frame check: field `{fc['private_field']}` of `{fc['struct']}` is no longer private")
+
+
 def check_unit(name: str, variant: Optional[str] = None, rlimit: Optional[float] = None, relock: bool = False, do_vacuity: bool = True) -> UnitResult:
     t0 = time.time()
     try:
@@ -1345,6 +1370,7 @@ def check_unit(name: str, variant: Optional[str] = None, rlimit: Optional[float]
     rl = rlimit or unit.cfg.get("rlimit", 30)
     try:
         text = unit.assemble(variant)
+        frame_checks(unit)
     except ExtractError as e:
         ur = UnitResult(name, variant, "undecided", reason=f"extraction: {e}")
         return ur
@@ -1352,7 +1378,10 @@ def check_unit(name: str, variant: Optional[str] = None, rlimit: Optional[float]
     path = os.path.join(wdir, modname + ".rs")
     open(path, "w", encoding="utf-8").write(text)
     res = run_verus(path, rl)
-    ur = classify(unit, text, res)
+    try:
+        ur = classify(unit, text, res)
+    except ExtractError as e:
+        return UnitResult(name, variant, "undecided", reason=f"extraction: {e}")
     ur.variant = variant
     ur.path = path
     ur.drop_report = unit.report.entries
